@@ -395,41 +395,133 @@ func Register(r *rux.Router, defs []RouteDef, h func(d RouteDef) rux.HandlerFunc
 func RegisterOne(r *rux.Router, d RouteDef, path string, h rux.HandlerFunc) {
 	name := d.Name()
 	ms := d.Methods
+	// an application also makes calls that the router refuses; it recovers and carries on (nothing may stay behind)
+	rejected := d.Idx%3 == 1
+	if rejected && !d.P.IsStatic() { // (a dynamic route that slipped in first would be asked first)
+		RejectedCalls(r, d, path, d.Idx/3+len(path))
+	}
+	var rt *rux.Route
 	switch (d.Idx*7 + len(d.P.String())) % 7 {
 	case 1:
 		sp := make([]string, len(ms))
 		for i, m := range ms {
 			sp[i] = []string{strings.ToLower(m), " " + m + " ", strings.ToLower(m[:1]) + m[1:], m + " "}[(i+d.Idx)%4]
 		}
-		r.AddNamed(name, path, h, sp...)
+		rt = r.AddNamed(name, path, h, sp...)
 	case 2:
 		// the caller goes on using the slice it passed as methods... (here: overwrites it) before the route is attached
 		own := append([]string(nil), ms...)
-		rt := rux.NewNamedRoute(name, path, h, own...)
+		rt = rux.NewNamedRoute(name, path, h, own...)
 		scribble(own)
+		ObserveRoute(rt) // ... and looks at the route it built before it attaches it
 		r.AddRoute(rt)
 	case 3:
 		own := append(make([]string, 0, len(ms)+2), ms...)
-		rt := rux.NamedRoute(name, path, h, own...)
+		rt = rux.NamedRoute(name, path, h, own...)
 		scribble(own)
+		ObserveRoute(rt)
 		rt.AttachTo(r)
 	case 4:
 		if len(ms) == 1 && ms[0] == "GET" {
-			r.AddNamed(name, path, h) // no methods: GET
+			rt = r.AddNamed(name, path, h) // no methods: GET
 		} else {
-			r.AddNamed(name, path, h, ms...)
+			rt = r.AddNamed(name, path, h, ms...)
 		}
 	case 5:
-		r.Add(path, h, ms...).NamedTo(name, r)
+		rt = r.Add(path, h, ms...)
+		rt.NamedTo(name, r)
 	case 6:
 		own := append([]string(nil), ms...)
-		rt := rux.NewRoute(path, h, own...)
+		rt = rux.NewRoute(path, h, own...)
+		ObserveRoute(rt)
 		rt.AttachTo(r)
 		scribble(own)
 		rt.NamedTo(name, r)
 	default:
-		r.AddNamed(name, path, h, ms...)
+		rt = r.AddNamed(name, path, h, ms...)
 	}
+	if rejected && d.P.IsStatic() { // (a static route that slipped in afterwards would replace the accepted one)
+		RejectedCalls(r, d, path, d.Idx/3+len(path))
+	}
+	switch d.Idx % 4 {
+	case 2:
+		Observe(r)
+	case 3:
+		// more middleware than a route may carry: refused as a whole
+		TryCall(func() { rt.Use(make([]rux.HandlerFunc, 70)...) })
+		TryCall(func() {
+			many := make([]rux.HandlerFunc, 70)
+			for i := range many {
+				many[i] = RejectedStray
+			}
+			rt.Use(many...)
+		})
+	}
+}
+
+var RejectedStray rux.HandlerFunc = func(c *rux.Context) {
+	c.WriteString("<A-HANDLER-LEFT-BEHIND-BY-A-REJECTED-CALL>")
+	c.Next()
+}
+
+// TryCall runs f the way an application does that recovers from a refused call; it reports whether f panicked.
+func TryCall(f func()) (refused bool) {
+	defer func() {
+		if recover() != nil {
+			refused = true
+		}
+	}()
+	f()
+	return false
+}
+
+// RejectedCalls makes, in the state the router is in (inside a group or not), one of the calls an application may get
+// wrong: each is refused with a panic and the application recovers.  Nothing of a refused call may stay behind.  (All
+// of them are unnamed registrations: rux enters the NAME of a route into its name table before it parses the pattern.)
+func RejectedCalls(r *rux.Router, d RouteDef, path string, k int) bool {
+	m := "GET"
+	if len(d.Methods) > 0 {
+		m = d.Methods[0]
+	}
+	v := "id"
+	if vs := d.P.Vars(); len(vs) > 0 {
+		v = vs[0].Name
+	}
+	switch k % 5 {
+	case 0:
+		// the route's own path and first method, then a method rux does not know
+		return TryCall(func() { r.Add(path, RejectedStray, m, "BREW") })
+	case 1:
+		return TryCall(func() { r.Add("/zz-rejected[/{"+v+"}]/list", RejectedStray) })
+	case 2:
+		return TryCall(func() { r.Add("/zz-rejected/{"+v+":(?:a|b)(c)}", RejectedStray, "POST") })
+	case 3:
+		s := "not a struct"
+		return TryCall(func() { r.Resource("/zz-rejected", &s, RejectedStray) })
+	default:
+		return TryCall(func() { r.Add(path, nil, m) })
+	}
+}
+
+// ObserveRoute calls the read-only API of a route, attached or not: none of it changes what the route is or does.
+func ObserveRoute(rt *rux.Route) {
+	_, _, _ = rt.Name(), rt.Path(), rt.Methods()
+	_, _ = rt.MethodString(","), rt.String()
+	_ = rt.Info()
+	_, _, _ = rt.Handlers(), rt.HandlerName(), rt.Handler()
+	_ = rt.ToURL()
+}
+
+// Observe calls the read-only API of a router: none of it changes how requests are answered or what later
+// registrations do.
+func Observe(r *rux.Router) {
+	_ = r.String()
+	_ = r.Routes()
+	r.IterateRoutes(ObserveRoute)
+	for _, rt := range r.NamedRoutes() {
+		ObserveRoute(rt)
+	}
+	_, _, _ = r.Handlers(), r.GetRoute("r0"), r.Err()
 }
 
 // Lookup is one (method, path) pair with the route index the sequential lookup gave.
